@@ -323,6 +323,15 @@ def propagate_cases(rng, n):
                 qf_ = (rng.choice(['exists', 'forall']), (w[1],), (
                     ('or', None, (qf_, ('eq', None, (w, o)))),))
             atoms.append(qf_)
+        if t == B.INT and rng.random() < 0.25:
+            # an array literal whose indexes are constants that also occur
+            # in the equalities (they must stay constants)
+            lit = ('arrayval', B.INT, (B.Int(-3), consts[0], consts[1],
+                                       consts[1], consts[0]))
+            atoms.append(rng.choice([
+                ('eq', None, (lit, B.Sym('aArrayIntInt_0', G.A_II))),
+                ('le', None, (('select', None, (lit, rng.choice(syms))),
+                              rng.choice(syms + consts)))]))
         if rng.random() < 0.3:
             # a nested conjunction and a non-toplevel equality
             atoms.append(('and', None, (('eq', None, (syms[0], syms[1])),
